@@ -218,6 +218,18 @@ static int tmrcmp(void *my_data, void *node_data) {
     ev_src_t *src = (ev_src_t *)node_data;
     ev_src_t *key = (ev_src_t *)my_data;
 
+    /*
+     * Library-internal timers (token bucket refill, batch timeout) live in a key space of their own,
+     * told apart by their userptr: they never clash with, nor are found through, a user timer of the same period.
+     */
+    const bool key_internal = key->flags & M_SRC_INTERNAL;
+    const bool src_internal = src->flags & M_SRC_INTERNAL;
+    if (key_internal != src_internal) {
+        return M_CMP(key_internal, src_internal);
+    }
+    if (key_internal && key->userptr != src->userptr) {
+        return M_CMP((uintptr_t)key->userptr, (uintptr_t)src->userptr);
+    }
     return M_CMP(key->tmr_src.its.ns, src->tmr_src.its.ns);
 }
 
@@ -440,6 +452,17 @@ int deregister_mod_src(m_mod_t *mod, m_src_types type, void *src_data) {
         return -EINVAL;
     }
     return m_bst_remove(mod->srcs[type], &key);
+}
+
+/* Removes a library-internal timer (registered with M_SRC_INTERNAL and the given userptr) */
+int deregister_internal_tmr(m_mod_t *mod, const m_src_tmr_t *its, const void *userptr) {
+    M_MOD_CONSUME_TOKEN(mod);
+
+    ev_src_t key = {0};
+    memcpy(&key.tmr_src.its, its, sizeof(m_src_tmr_t));
+    key.flags = M_SRC_INTERNAL;
+    key.userptr = userptr;
+    return m_bst_remove(mod->srcs[M_SRC_TYPE_TMR], &key);
 }
 
 int start_task(m_ctx_t *c, ev_src_t *src) {
